@@ -124,3 +124,36 @@ def known_open(finding_id):
         except (OSError, ValueError):
             _KNOWN_CACHE = set()
     return finding_id in _KNOWN_CACHE
+
+
+import pickle as _pickle
+
+
+def forked(thunk):
+    """run thunk() in a forked child and return its (picklable) result.  Used where the outcome may depend on what ran earlier in the
+    process (module-level tables, caches, defaults): each such run starts from the state of a worker that has imported hl7apy and
+    executed nothing else, so a result neither depends on the order in which paths are explored nor fails to replay."""
+    r, w = os.pipe()
+    pid = os.fork()
+    if pid == 0:
+        code = 0
+        try:
+            os.close(r)
+            try:
+                data = _pickle.dumps(('ok', thunk()))
+            except BaseException as e:      # noqa - the child must never return into the caller's frames
+                data = _pickle.dumps(('err', '%s: %s' % (type(e).__name__, e)))
+            with os.fdopen(w, 'wb') as f:
+                f.write(data)
+        except BaseException:               # noqa
+            code = 3
+        finally:
+            os._exit(code)
+    os.close(w)
+    with os.fdopen(r, 'rb') as f:
+        data = f.read()
+    os.waitpid(pid, 0)
+    kind, val = _pickle.loads(data)
+    if kind == 'err':
+        raise RuntimeError('forked schedule failed: %s' % val)
+    return val
